@@ -97,7 +97,8 @@ class C16(Prop):
             solve["cfg"]["wrapper"] = "mosek"
             solve["env"] = {"mosek": "present"}
         if case == "accessors":
-            state = ["never", "none", "raised", "after-failed", "failed-after-success"][(idx // 7) % 5]
+            state = ["never", "none", "raised", "after-failed", "failed-after-success",
+                     "failed-after-second-phase-failure"][(idx // 7) % 6]
             plan["state"] = state
             if state == "failed-after-success":
                 # a solve succeeded, then a solve of the same object found no value: nothing may be readable
@@ -110,6 +111,18 @@ class C16(Prop):
                         ops.append(dict(o))
                 solve["peer"]["script"] = {"1": rng.choice([{"action": "status", "status": rng.choice(NOVALUE_STATUSES)},
                                                             {"action": "raise"}])}
+                ops.append(solve)
+            elif state == "failed-after-second-phase-failure":
+                # a dimension-reduction solve whose later solver call raised (problem 1 had been solved: its
+                # multipliers were assigned, no primal value was stored), then a solve that finds no value
+                first = copy.deepcopy(solve)
+                first["out"] = "tau_aborted"
+                first["cfg"]["heuristic"] = rng.choice(["trace", "logdet1", "logdet2"])
+                first["cfg"]["eig"] = 0.05
+                first["peer"]["script"] = {"2": {"action": "raise"}}
+                first["nojudge"] = True
+                ops.append(first)
+                solve["peer"]["script"] = {"1": {"action": "status", "status": rng.choice(NOVALUE_STATUSES)}}
                 ops.append(solve)
             elif state == "none":
                 st = rng.choice(NOVALUE_STATUSES)
@@ -128,7 +141,8 @@ class C16(Prop):
                 for o in post:
                     if o["op"] in ("plin", "inner", "elin", "cons", "psd"):
                         ops.append({"op": "eval", "h": o["out"], "_kind": "built-after-failed-solve:" + o["op"]})
-            acc = accessor_ops(b, rng, with_generated=(state in ("none", "raised", "after-failed", "failed-after-success")))
+            acc = accessor_ops(b, rng, with_generated=(state in ("none", "raised", "after-failed", "failed-after-success",
+                                                                 "failed-after-second-phase-failure")))
             for o, kind in acc:
                 o = dict(o)
                 if kind:
